@@ -961,6 +961,7 @@ func (e *Exec) execBlock(b *ssa.BasicBlock, st State) {
 		case *ssa.Store:
 			e.guardCheck(x.Addr, true, &st, x.Pos())
 			e.stableStoreCheck(x.Addr, &st, x.Pos())
+			e.immutableStoreCheck(x.Addr, &st, x.Pos())
 			p := e.val(x.Addr)
 			if p.Loc == nil {
 				e.safety("nil", &st, not(fmt.Sprintf("(= %s nil)", p.T)), "nil dereference in store", x.Pos())
@@ -1106,6 +1107,10 @@ func (e *Exec) execAlloc(x *ssa.Alloc, st *State) {
 	if isStruct(t) {
 		st.heap = c.storeStruct(st.heap, r, t, c.zero(t))
 		e.initLocks(st, r, t)
+		if c.isImmutableType(t) {
+			c.compSort["$unpub"] = "(Array Ref Bool)"
+			st.heap = c.hstore(st.heap, "$unpub", r, "true")
+		}
 	} else if isArray(t) {
 		// contents unknown until stored
 	} else {
